@@ -5,7 +5,7 @@
 //! every truncation of the final files) is reopened in a forked child.
 
 use std::path::Path;
-use zverif::crash::{Crash, CrashSpec, LogOp, Recorder, ShimApi};
+use zverif::crash::{Crash, CrashFamily, CrashSpec, LogOp, Recorder, ShimApi};
 
 #[path = "../../wlog_shim.rs"]
 mod wlog_shim;
@@ -217,6 +217,11 @@ struct ZipOffsetHist {
     offsets: &'static str,
     /// additionally 70 records of 1000 bytes in front (content > 64 KiB, more than one offset block)
     big: bool,
+    /// first save ANOTHER store (9 records, longer file) to the same path; crash images then mix old and new blocks
+    over_existing: bool,
+}
+fn zo_old_records() -> Vec<Vec<u8>> {
+    (0..9u32).map(|i| (0..(40 + 37 * i)).map(|j| (i * 31 + j * 7) as u8).collect()).collect()
 }
 fn zo_records() -> Vec<Vec<u8>> {
     vec![b"".to_vec(), b"a".to_vec(), vec![b'x'; 300], (0..=255u8).collect(), b"tail-record".to_vec()]
@@ -240,7 +245,9 @@ fn zo_state(s: &ZipOffsetBlobStore, n: u32) -> Vec<u8> {
 }
 impl CrashSpec for ZipOffsetHist {
     fn name(&self) -> String {
-        if self.offsets == "default" && !self.big {
+        if self.over_existing {
+            format!("ZipOffsetBlobStore[compress={},checksum={},offsets={}]: save a 9-record store, then save a 5-record store over the same file, load_from_file", self.compress, self.checksum, self.offsets)
+        } else if self.offsets == "default" && !self.big {
             format!("ZipOffsetBlobStore[compress={},checksum={}]: build 5 records, save_to_file, load_from_file", self.compress, self.checksum)
         } else {
             format!(
@@ -264,6 +271,16 @@ impl CrashSpec for ZipOffsetHist {
             "performance" => zipora::blob_store::SortedUintVecConfig::performance_optimized(),
             _ => cfg.offset_config,
         };
+        if self.over_existing {
+            let mut b = ZipOffsetBlobStoreBuilder::with_config(cfg.clone()).map_err(es)?;
+            for r in zo_old_records() {
+                b.add_record(&r).map_err(es)?;
+            }
+            let old = b.finish().map_err(es)?;
+            old.save_to_file(dir.join("store.zo")).map_err(es)?;
+            // probed over the same id range as every later state
+            rec.sync_point(zo_state(&old, 9));
+        }
         let mut b = ZipOffsetBlobStoreBuilder::with_config(cfg).map_err(es)?;
         let mut n = 0u32;
         if self.big {
@@ -278,12 +295,12 @@ impl CrashSpec for ZipOffsetHist {
         }
         let store = b.finish().map_err(es)?;
         store.save_to_file(dir.join("store.zo")).map_err(es)?;
-        rec.sync_point(zo_state(&store, n));
+        rec.sync_point(zo_state(&store, if self.over_existing { 9 } else { n }));
         Ok(())
     }
     fn reopen(&self, dir: &Path) -> Result<Vec<u8>, String> {
         let s = ZipOffsetBlobStore::load_from_file(dir.join("store.zo")).map_err(es)?;
-        Ok(zo_state(&s, if self.big { 75 } else { 5 }))
+        Ok(zo_state(&s, if self.over_existing { 9 } else if self.big { 75 } else { 5 }))
     }
     fn sector_sizes(&self, tier: zverif::Tier) -> Vec<usize> {
         if self.big {
@@ -339,9 +356,33 @@ struct ReorderHist {
     /// 0: the 11-value history; n > 0: n values that are all separate runs (one 5-byte record each: more than 819 of them
     /// exceed the builder's 4096-byte record buffer, which is then spilled to the file before finish())
     n: usize,
+    /// runs of 300, 1 and 200 consecutive values: run lengths >= 128 are multi-byte var_uints (a file can end between
+    /// two bytes of one)
+    long_runs: bool,
+    /// first build and finish ANOTHER, larger map at the same path (2000 elements in runs of 250), then build this one over
+    /// it: crash images mix the old file's records with the new header and vice versa
+    over_existing: bool,
 }
 impl ReorderHist {
+    fn old_values(&self) -> Vec<usize> {
+        let mut v = Vec::new();
+        for r in 0..8usize {
+            let base = 100_000 * (r + 1);
+            for i in 0..250usize {
+                v.push(if self.sign == 1 { base + i } else { base + 250 - i });
+            }
+        }
+        v
+    }
     fn values(&self) -> Vec<usize> {
+        if self.long_runs {
+            let mut v: Vec<usize> = Vec::new();
+            let up = self.sign == 1;
+            v.extend((0..300usize).map(|i| if up { 1000 + i } else { 1300 - i }));
+            v.push(7);
+            v.extend((0..200usize).map(|i| if up { 50_000 + i } else { 50_200 - i }));
+            return v;
+        }
         if self.n > 0 {
             let v: Vec<usize> = (0..self.n).map(|i| 7 + 3 * i).collect();
             return if self.sign == 1 { v } else { v.into_iter().rev().collect() };
@@ -362,7 +403,14 @@ fn ro_state(v: &[usize]) -> Vec<u8> {
 }
 impl CrashSpec for ReorderHist {
     fn name(&self) -> String {
-        if self.n == 0 {
+        if self.long_runs || self.over_existing {
+            format!(
+                "ZReorderMap[sign={}]: {}builder push {}, finish, open, iterate",
+                self.sign,
+                if self.over_existing { "an older 2000-element map is finished at the same path first; then " } else { "" },
+                if self.long_runs { "runs of 300 / 1 / 200 values (multi-byte run lengths)" } else { "x11" }
+            )
+        } else if self.n == 0 {
             format!("ZReorderMap[sign={}]: builder push x11, finish, open, iterate", self.sign)
         } else {
             format!("ZReorderMap[sign={}]: builder push x{} separate runs (buffer spill), finish, open, iterate", self.sign, self.n)
@@ -373,6 +421,15 @@ impl CrashSpec for ReorderHist {
     }
     fn run_history(&self, dir: &Path, rec: &mut Recorder) -> Result<(), String> {
         use zipora::blob_store::reorder_map::ZReorderMapBuilder;
+        if self.over_existing {
+            let old = self.old_values();
+            let mut b = ZReorderMapBuilder::new(dir.join("reorder.map"), old.len(), self.sign).map_err(es)?;
+            for v in &old {
+                b.push(*v).map_err(es)?;
+            }
+            b.finish().map_err(es)?;
+            rec.sync_point(ro_state(&old));
+        }
         let vals = self.values();
         let mut b = ZReorderMapBuilder::new(dir.join("reorder.map"), vals.len(), self.sign).map_err(es)?;
         for v in &vals {
@@ -403,7 +460,10 @@ impl CrashSpec for ReorderHist {
 
 // ---- PA-Zip dictionary (bincode blob, no checksum) ------------------------------------------------
 
-struct DictHist;
+struct DictHist {
+    /// a dictionary trained on another, longer text is saved to the same path first
+    over_existing: bool,
+}
 fn dict_state(d: &zipora::compression::dict_zip::SuffixArrayDictionary) -> Vec<u8> {
     let mut s = (d.data().len() as u64).to_le_bytes().to_vec();
     s.extend_from_slice(d.data());
@@ -415,7 +475,11 @@ fn dict_state(d: &zipora::compression::dict_zip::SuffixArrayDictionary) -> Vec<u
 }
 impl CrashSpec for DictHist {
     fn name(&self) -> String {
-        "SuffixArrayDictionary: build, save_to_file, load_from_file, query".into()
+        if self.over_existing {
+            "SuffixArrayDictionary: save a dictionary of another text, then save this one over the same file, load_from_file, query".into()
+        } else {
+            "SuffixArrayDictionary: build, save_to_file, load_from_file, query".into()
+        }
     }
     fn describe(&self) -> String {
         "PA-Zip dictionary trained on a 180-byte text -> save_to_file (bincode blob: text + DFA cache) -> load_from_file -> data() and 4 match queries".into()
@@ -426,6 +490,12 @@ impl CrashSpec for DictHist {
         let mut cfg = SuffixArrayDictionaryConfig::default();
         cfg.use_memory_pool = false;
         cfg.min_frequency = 2;
+        if self.over_existing {
+            let old_text = b"pack my box with five dozen liquor jugs! pack my box with five dozen liquor jugs! pack my box with five dozen liquor jugs! pack my box with five dozen liquor jugs! pack my box with five dozen liquor jugs! pack my box.";
+            let old = SuffixArrayDictionary::new(old_text, cfg.clone()).map_err(es)?;
+            old.save_to_file(dir.join("dict.bin")).map_err(es)?;
+            rec.sync_point(dict_state(&old));
+        }
         let d = SuffixArrayDictionary::new(text, cfg).map_err(es)?;
         d.save_to_file(dir.join("dict.bin")).map_err(es)?;
         rec.sync_point(dict_state(&d));
@@ -574,21 +644,240 @@ impl CrashSpec for MmapVecHist3 {
     }
 }
 
+// ---- families: EVERY operation history up to a depth, each one explored completely (E1 x E4) -------------------
+
+/// Enumerates all sequences over `0..k` of length 0..=depth, shortest first.
+fn all_seqs(k: usize, depth: usize) -> Vec<Vec<usize>> {
+    let mut out: Vec<Vec<usize>> = vec![vec![]];
+    let mut level: Vec<Vec<usize>> = vec![vec![]];
+    for _ in 0..depth {
+        let mut next = Vec::new();
+        for s in &level {
+            for a in 0..k {
+                let mut t = s.clone();
+                t.push(a);
+                next.push(t);
+            }
+        }
+        out.extend(next.iter().cloned());
+        level = next;
+    }
+    out
+}
+
+const MV_OPS: [&str; 10] = ["push", "extend3", "pop", "truncate_half", "clear", "sync", "reserve8", "shrink_to_fit", "resize+2", "set_first"];
+
+struct MmapVecOps {
+    ops: Vec<usize>,
+    sync_on_write: bool,
+    cap: usize,
+}
+impl MmapVecOps {
+    fn apply(v: &mut MmapVec<u32>, op: usize, step: usize) -> Result<(), String> {
+        let val = 0x1000_0000u32 * (step as u32 + 1) + 0x0101_0101;
+        match op {
+            0 => v.push(val).map_err(es),
+            1 => v.extend([val, val + 1, val + 2]).map_err(es),
+            2 => {
+                let _ = v.pop();
+                Ok(())
+            }
+            3 => {
+                let n = v.len() / 2;
+                v.truncate(n).map_err(es)
+            }
+            4 => v.clear().map_err(es),
+            5 => v.sync().map_err(es),
+            6 => v.reserve(8).map_err(es),
+            7 => v.shrink_to_fit().map_err(es),
+            8 => {
+                let n = v.len() + 2;
+                v.resize(n, val).map_err(es)
+            }
+            _ => {
+                if let Some(x) = v.get_mut(0) {
+                    *x = val;
+                }
+                Ok(())
+            }
+        }
+    }
+}
+impl CrashSpec for MmapVecOps {
+    fn name(&self) -> String {
+        format!("create(cap {}), push x2, sync, [{}], sync", self.cap, self.ops.iter().map(|o| MV_OPS[*o]).collect::<Vec<_>>().join(", "))
+    }
+    fn describe(&self) -> String {
+        String::new()
+    }
+    fn sector_sizes(&self, _tier: zverif::Tier) -> Vec<usize> {
+        vec![512, 64]
+    }
+    fn run_history(&self, dir: &Path, rec: &mut Recorder) -> Result<(), String> {
+        let p = dir.join("f.mmapvec");
+        let cfg = MmapVecConfig::builder().with_initial_capacity(self.cap).with_sync_on_write(self.sync_on_write).build();
+        let mut v: MmapVec<u32> = MmapVec::create(&p, cfg).map_err(es)?;
+        // a non-initial start state: two elements, synced
+        v.push(0xAAAA_0001).map_err(es)?;
+        rec.op_boundary(mv32_state(&v));
+        v.push(0xAAAA_0002).map_err(es)?;
+        rec.op_boundary(mv32_state(&v));
+        v.sync().map_err(es)?;
+        rec.sync_point(mv32_state(&v));
+        for (i, op) in self.ops.iter().enumerate() {
+            // extend / resize append element by element; the library may persist after each one (sync_on_write, or the
+            // sync inside a growth step), so the partially extended contents are states "valid at an earlier sync point" too:
+            // they are registered before the operation starts
+            if *op == 1 || *op == 8 {
+                let val = 0x1000_0000u32 * (i as u32 + 1) + 0x0101_0101;
+                let mut cur: Vec<u32> = v.as_slice().to_vec();
+                for k in 0..(if *op == 1 { 2 } else { 1 }) {
+                    cur.push(if *op == 1 { val + k } else { val });
+                    let mut st = (cur.len() as u64).to_le_bytes().to_vec();
+                    for x in &cur {
+                        st.extend_from_slice(&x.to_le_bytes());
+                    }
+                    rec.op_boundary(st);
+                }
+            }
+            Self::apply(&mut v, *op, i)?;
+            if *op == 5 {
+                rec.sync_point(mv32_state(&v));
+            } else {
+                rec.op_boundary(mv32_state(&v));
+            }
+        }
+        v.sync().map_err(es)?;
+        rec.sync_point(mv32_state(&v));
+        Ok(())
+    }
+    fn reopen(&self, dir: &Path) -> Result<Vec<u8>, String> {
+        let v: MmapVec<u32> = MmapVec::open(dir.join("f.mmapvec"), MmapVecConfig::default()).map_err(es)?;
+        let mut s = mv32_state(&v);
+        for i in 0..v.len() {
+            if v.get(i).is_none() {
+                s.push(0xEE);
+            }
+        }
+        Ok(s)
+    }
+    fn after_reopen(&self, dir: &Path) -> Result<(), String> {
+        let p = dir.join("f.mmapvec");
+        let mut v: MmapVec<u32> = MmapVec::open(&p, MmapVecConfig::default()).map_err(es)?;
+        let mut want: Vec<u32> = v.as_slice().to_vec();
+        for i in 0..3u32 {
+            v.push(0x7700_0000 + i).map_err(es)?;
+            want.push(0x7700_0000 + i);
+        }
+        v.sync().map_err(es)?;
+        drop(v);
+        let v: MmapVec<u32> = MmapVec::open(&p, MmapVecConfig::default()).map_err(es)?;
+        if v.as_slice() != &want[..] {
+            return Err(format!("after recovery + 3 pushes + sync + reopen the vector holds {:x?}, expected {:x?}", v.as_slice(), want));
+        }
+        Ok(())
+    }
+}
+
+const PL_OPS: [&str; 6] = ["put(23 bytes)", "put(700 bytes)", "put(empty)", "remove(oldest live)", "remove(newest live)", "drop + reopen"];
+
+struct PlainOps {
+    ops: Vec<usize>,
+}
+impl CrashSpec for PlainOps {
+    fn name(&self) -> String {
+        format!("create_new, put A, [{}]", self.ops.iter().map(|o| PL_OPS[*o]).collect::<Vec<_>>().join(", "))
+    }
+    fn describe(&self) -> String {
+        String::new()
+    }
+    fn run_history(&self, dir: &Path, rec: &mut Recorder) -> Result<(), String> {
+        let d = dir.join("store");
+        let mut s = PlainBlobStore::create_new(&d).map_err(es)?;
+        rec.sync_point(plain_state(&s, 6));
+        let mut live: Vec<u32> = Vec::new();
+        live.push(s.put(REC_A).map_err(es)?);
+        rec.sync_point(plain_state(&s, 6));
+        for (i, op) in self.ops.iter().enumerate() {
+            match op {
+                0 => {
+                    let r: Vec<u8> = format!("record-{i}-0123456789abcdef").into_bytes();
+                    live.push(s.put(&r).map_err(es)?);
+                    rec.sync_point(plain_state(&s, 6));
+                }
+                1 => {
+                    live.push(s.put(&vec![0xB0 + i as u8; 700]).map_err(es)?);
+                    rec.sync_point(plain_state(&s, 6));
+                }
+                2 => {
+                    live.push(s.put(b"").map_err(es)?);
+                    rec.sync_point(plain_state(&s, 6));
+                }
+                3 | 4 => {
+                    if !live.is_empty() {
+                        let id = if *op == 3 { live.remove(0) } else { live.pop().unwrap() };
+                        s.remove(id).map_err(es)?;
+                    }
+                    rec.op_boundary(plain_state(&s, 6));
+                }
+                _ => {
+                    drop(s);
+                    s = PlainBlobStore::new(&d).map_err(es)?;
+                    rec.op_boundary(plain_state(&s, 6));
+                }
+            }
+        }
+        Ok(())
+    }
+    fn reopen(&self, dir: &Path) -> Result<Vec<u8>, String> {
+        PlainHist.reopen(dir)
+    }
+    fn after_reopen(&self, dir: &Path) -> Result<(), String> {
+        PlainHist.after_reopen(dir)
+    }
+}
+
 fn main() {
     zverif::main_with("C19", |reg, _tier| {
         reg.add(Crash { spec: MmapVecHist, shim: &SHIM });
         reg.add(Crash { spec: PlainHist, shim: &SHIM });
-        reg.add(Crash { spec: ZipOffsetHist { compress: 0, checksum: 2, offsets: "default", big: false }, shim: &SHIM });
-        reg.add(Crash { spec: ZipOffsetHist { compress: 3, checksum: 3, offsets: "default", big: false }, shim: &SHIM });
-        reg.add(Crash { spec: ZipOffsetHist { compress: 0, checksum: 2, offsets: "memory", big: false }, shim: &SHIM });
-        reg.add(Crash { spec: ZipOffsetHist { compress: 0, checksum: 3, offsets: "performance", big: false }, shim: &SHIM });
-        reg.add(Crash { spec: ZipOffsetHist { compress: 0, checksum: 2, offsets: "default", big: true }, shim: &SHIM });
-        reg.add(Crash { spec: ReorderHist { sign: 1, n: 0 }, shim: &SHIM });
-        reg.add(Crash { spec: ReorderHist { sign: -1, n: 0 }, shim: &SHIM });
-        reg.add(Crash { spec: ReorderHist { sign: 1, n: 1000 }, shim: &SHIM });
-        reg.add(Crash { spec: DictHist, shim: &SHIM });
+        reg.add(Crash { spec: ZipOffsetHist { compress: 0, checksum: 2, offsets: "default", big: false, over_existing: false }, shim: &SHIM });
+        reg.add(Crash { spec: ZipOffsetHist { compress: 3, checksum: 3, offsets: "default", big: false, over_existing: false }, shim: &SHIM });
+        reg.add(Crash { spec: ZipOffsetHist { compress: 0, checksum: 2, offsets: "memory", big: false, over_existing: false }, shim: &SHIM });
+        reg.add(Crash { spec: ZipOffsetHist { compress: 0, checksum: 3, offsets: "performance", big: false, over_existing: false }, shim: &SHIM });
+        reg.add(Crash { spec: ZipOffsetHist { compress: 0, checksum: 2, offsets: "default", big: true, over_existing: false }, shim: &SHIM });
+        reg.add(Crash { spec: ReorderHist { sign: 1, n: 0, long_runs: false, over_existing: false }, shim: &SHIM });
+        reg.add(Crash { spec: ReorderHist { sign: -1, n: 0, long_runs: false, over_existing: false }, shim: &SHIM });
+        reg.add(Crash { spec: ReorderHist { sign: 1, n: 1000, long_runs: false, over_existing: false }, shim: &SHIM });
+        reg.add(Crash { spec: ReorderHist { sign: 1, n: 0, long_runs: true, over_existing: false }, shim: &SHIM });
+        reg.add(Crash { spec: ReorderHist { sign: -1, n: 0, long_runs: true, over_existing: false }, shim: &SHIM });
+        reg.add(Crash { spec: ReorderHist { sign: 1, n: 0, long_runs: true, over_existing: true }, shim: &SHIM });
+        reg.add(Crash { spec: ReorderHist { sign: 1, n: 0, long_runs: false, over_existing: true }, shim: &SHIM });
+        reg.add(Crash { spec: ZipOffsetHist { compress: 0, checksum: 2, offsets: "default", big: false, over_existing: true }, shim: &SHIM });
+        reg.add(Crash { spec: ZipOffsetHist { compress: 0, checksum: 0, offsets: "default", big: false, over_existing: true }, shim: &SHIM });
+        reg.add(Crash { spec: DictHist { over_existing: true }, shim: &SHIM });
+        reg.add(Crash { spec: DictHist { over_existing: false }, shim: &SHIM });
         reg.add(Crash { spec: MmapVecHist2, shim: &SHIM });
         reg.add(Crash { spec: MmapVecHist3 { sync_on_write: false }, shim: &SHIM });
         reg.add(Crash { spec: MmapVecHist3 { sync_on_write: true }, shim: &SHIM });
+        for (sow, cap) in [(false, 2usize), (true, 4)] {
+            reg.add(CrashFamily {
+                name: format!("MmapVec<u32>[sync_on_write={sow},cap={cap}]: ALL operation histories"),
+                describe: format!(
+                    "every sequence of <= 2 (quick) / 3 (thorough) operations from {{{}}} after the start state create(cap {cap}), push x2, sync, and followed by a final sync, on the real MmapVec write path",
+                    MV_OPS.join(", ")
+                ),
+                members: Box::new(move |tier| {
+                    all_seqs(MV_OPS.len(), tier.pick(2, 3)).into_iter().map(|ops| Box::new(MmapVecOps { ops, sync_on_write: sow, cap }) as Box<dyn CrashSpec>).collect()
+                }),
+                shim: &SHIM,
+            });
+        }
+        reg.add(CrashFamily {
+            name: "PlainBlobStore: ALL operation histories".into(),
+            describe: format!("every sequence of <= 2 (quick) / 3 (thorough) operations from {{{}}} after create_new + put A on the real directory-backed store", PL_OPS.join(", ")),
+            members: Box::new(|tier| all_seqs(PL_OPS.len(), tier.pick(2, 3)).into_iter().map(|ops| Box::new(PlainOps { ops }) as Box<dyn CrashSpec>).collect()),
+            shim: &SHIM,
+        });
     });
 }
